@@ -14,7 +14,8 @@ Bounded-exhaustive enumeration (mc.product.full + mc.core.pmap, per-case timeout
                                                           DisciplinaryOpt (systems without strong couplings);
                                                           MDF(main MDA in {MDAJacobi, MDAGaussSeidel; MDANewtonRaphson, MDAGSNewton
                                                           on fully cyclic graphs}) on the same design space (couplings included);
-                                                          thorough: IDF(start_at_equilibrium)
+                                                          IDF(start_at_equilibrium in {F, T} x n_processes in {1, 2}, threads; one
+                                                          multiprocessing variant on 2-strong)
   x 3 design points, each at the consistent couplings y*(x) and at an inconsistent y* + delta (IDF).
 
 The thorough tier is this whole product; the quick tier keeps every order for the two base variants but builds the complete
@@ -35,6 +36,9 @@ Oracles
                       Sizes and bounds of the kept variables unchanged.
   idf-value/-jac      IDF objective / constraints at (x, y) == the provider's output / partial derivatives at (x, y)
                       (rounding tolerance), for y = y*(x) and y = y*(x) + delta.
+  idf-start-*         IDF(start_at_equilibrium=True), sequential or n_processes = 2: the design-space current couplings ==
+                      y*(x_current) (closed form, MDA bound), design values unmoved, the consistency constraints vanish there,
+                      objective / constraints == the consistent system's and == MDF's at x_current (a 4th design point).
   consistency-*       each consistency constraint == (F_d(x, y) - y_d) [/ (ub - lb) when normalized and finite], vanishes
                       at y*(x) and nowhere else ("-detects-inconsistency": every component is finite, non-zero and of the
                       sign of F - y at y* + delta); Jacobian == (dF_d/dv - E_d) [/ (ub - lb)].
@@ -55,7 +59,10 @@ Oracle boundaries (rule 1)
 * A design variable that is an input of no discipline is not in the alphabet (MDF drops it, IDF keeps it; the statement
   does not say which is right).  Self-coupled disciplines and variables with two producers are not in the alphabet.
 * Non-convergence of an inner MDA is reported as its own invariant (C06 owns convergence); values are then not compared.
-* IDF with ``n_processes > 1`` (functions built on an MDOParallelChain) is not enumerated (C09 / C13 own the chains).
+* IDF with ``n_processes = 2`` (functions built on an MDOParallelChain) is enumerated with real threads / processes as a
+  black box: no schedule is controlled (C13 owns schedules); the oracles are the sequential ones.
+* Harness disciplines have default inputs that differ from the design-space current values and from each other; the MDA
+  error bounds assume a start anywhere within ||y0|| <= 2 sqrt(m) or at the design-space values.
 * Main MDAs of MDF: MDANewtonRaphson / MDAGSNewton only where gemseo supports them (no weakly coupled discipline);
   MDAQuasiNewton is not enumerated (SciPy's stop criterion, ``normed_residual`` not maintained: no derivable bound); an
   MDASequential counts as converged when one of its sub-MDAs reports a normed residual <= tolerance.
@@ -194,8 +201,18 @@ def param_value(v: str) -> np.ndarray:
     return 0.75 - 0.5 * np.arange(size(v))
 
 
+def discipline_default(u: str, i: int) -> np.ndarray:
+    """Default value of input u of discipline i: negative, different for every (discipline, variable)."""
+    return np.full(size(u), -(0.2 * (i + 1) + 0.15 * _code(u)))
+
+
+MAX_DEFAULT = 2.0  # bound on |discipline_default|
+
+
 def design_value(v: str, k: int) -> np.ndarray:
-    """Design point k in {0, 1, 2}: generic / zero components / the other sign."""
+    """Design point k in {0, 1, 2}: generic / zero components / the other sign; 3: the design space's current value."""
+    if k == 3:
+        return initial(v)
     base = ALPHA["base"][k]
     if k == 1:
         return np.where(np.arange(size(v)) % 2 == _code(v) % 2, 0.0, 0.9 - 0.4 * _code(v))
@@ -469,7 +486,8 @@ def _gemseo():
             self.body = body
             self.io.input_grammar.update_from_names(body.ins)
             self.io.output_grammar.update_from_names(body.outs)
-            self.io.input_grammar.defaults.update({u: (param_value(u) if u[0] == "p" else np.zeros(size(u))) for u in body.ins})
+            # defaults differ from the design-space current values (0.5) and from one discipline to the other
+            self.io.input_grammar.defaults.update({u: (param_value(u) if u[0] == "p" else discipline_default(u, body.i)) for u in body.ins})
             if declare:
                 self.io.set_linear_relationships(output_names=body.affine_outs)
             self.n_run = self.n_lin = 0
@@ -504,7 +522,7 @@ def mda_settings(inner):
 
 
 def make_formulation(ref: Ref, fv: list, case: dict, order, obj: str, cons: list):
-    """fv = ["IDF", normalize, start_at_equilibrium] | ["MDF", main, inner] | ["DOPT"]."""
+    """fv = ["IDF", normalize, start_at_equilibrium, n_processes, use_threading] (last three optional) | ["MDF", main, inner] | ["DOPT"]."""
     g = _gemseo()
     var = VARIANTS[case["variant"]]
     discs = [g["Harness"](b, bool(var.get("declare"))) for b in ref.bodies]
@@ -513,6 +531,8 @@ def make_formulation(ref: Ref, fv: list, case: dict, order, obj: str, cons: list
         st = {"normalize_constraints": bool(fv[1])}
         if len(fv) > 2 and fv[2]:
             st.update(start_at_equilibrium=True, mda_chain_settings_for_start_at_equilibrium=mda_settings("MDAGaussSeidel"))
+        if len(fv) > 3 and fv[3] > 1:
+            st.update(n_processes=int(fv[3]), use_threading=bool(fv[4]) if len(fv) > 4 else True)
         form = g["IDF"](discs, obj, ds, **st)
     elif fv[0] == "MDF":
         if fv[1] == "MDAChain":
@@ -596,7 +616,8 @@ def formulation_variants(ref: Ref, case):
 
 def fv_sig(fv):
     if fv[0] == "IDF":
-        return {"formulation": "IDF" + ("+equilibrium" if len(fv) > 2 and fv[2] else ""), "normalize_constraints": bool(fv[1]), "inner_mda": None}
+        par = ("+" + ("threads" if len(fv) < 5 or fv[4] else "processes")) if len(fv) > 3 and fv[3] > 1 else ""
+        return {"formulation": "IDF" + ("+equilibrium" if len(fv) > 2 and fv[2] else "") + par, "normalize_constraints": bool(fv[1]), "inner_mda": None}
     if fv[0] == "MDF":
         return {"formulation": "MDF" if fv[1] == "MDAChain" else f"MDF[{fv[1]}]", "normalize_constraints": None, "inner_mda": fv[2]}
     return {"formulation": "DisciplinaryOpt", "normalize_constraints": None, "inner_mda": None}
@@ -611,6 +632,8 @@ def run_case(case, tally):
     oc = order_class(order)
     obs = {"violations": [], "formulations": []}
     points = case.get("points", [0, 1, 2])
+    if any(fv[0] == "IDF" and len(fv) > 2 and fv[2] for fv in case.get("formulations", [])) and 3 not in points:
+        points = [*points, 3]  # the design space's current design values: where start_at_equilibrium puts IDF
 
     def viol(inv, fv, func, msg, with_idf=False, error=None):
         prov = ref.producer[func].i + 1 if func in ref.producer else None
@@ -619,18 +642,17 @@ def run_case(case, tally):
                "provider": f"D{prov}" if prov else None}
         if error is not None:  # exception class + message with the digits masked: identifies the raising site
             sig["error"] = f"{type(error).__name__}: " + re.sub(r"[0-9]+", "N", str(error))[:70]
-        keep = ([["IDF", False], ["IDF", True]] if with_idf else []) + [fv]
+        keep = (with_idf if isinstance(with_idf, list) else [["IDF", False], ["IDF", True]] if with_idf else []) + [fv]
         tally.violation(sig, {**case, "formulations": keep}, f"{inv} [{fv}] order={order} function={func}: {msg}\n  case={case}")
         obs["violations"].append({"invariant": inv, "formulation": fv, "function": func, "message": msg})
 
     # reference data at the design points
     refs = []
-    y0 = {v: initial(v) for v in ref.couplings}
     for k in points:
         x = {v: design_value(v, k) for v in ref.design}
         ystar, _ = ref.solve(x)
         yoff = {v: ystar[v] + offset(v) for v in ref.couplings}
-        dist = float(np.linalg.norm(ref.pack_y(ystar) - ref.pack_y(y0))) if ref.m else 0.0
+        dist = _start_distance(ref, ystar)
         refs.append({"k": k, "x": x, "y0dist": dist, "ystar": Snap(ref, k, "ystar", x, ystar, dist), "yoff": Snap(ref, k, "yoff", x, yoff, dist)})
 
     idf_at_solution = {}  # (normalize, k) -> {func: (value, jac)} reported by IDF at (x, y*)
@@ -638,7 +660,7 @@ def run_case(case, tally):
     for fv in formulation_variants(ref, case):
         label = fv[0] if fv[0] != "MDF" else f"MDF:{fv[1]}:{fv[2]}"
         if fv[0] == "IDF":
-            label = f"IDF:norm={bool(fv[1])}" + (":eq" if len(fv) > 2 and fv[2] else "")
+            label = f"IDF:norm={bool(fv[1])}" + (":eq" if len(fv) > 2 and fv[2] else "") + ((":threads" if len(fv) < 5 or fv[4] else ":processes") if len(fv) > 3 and fv[3] > 1 else "")
         try:
             form, discs = make_formulation(ref, fv, case, order, obj, cons)
         except Exception as e:
@@ -739,6 +761,20 @@ def run_case(case, tally):
                     if not _err(mj, chain) <= tol_j:
                         viol("total-derivative-chain-rule", fv, f, f"point {r['k']}: d{rep['label']}/dx = {mj.tolist()}, dIDF/dx + dIDF/dy . dy*/dx = {chain.tolist()} (IDF normalize={normalize}), |diff| {_err(mj, chain):.3e} > {tol_j:.3e}", with_idf=True)
 
+    # MDF at the design space's current design values versus IDF where start_at_equilibrium put it
+    for key, start in idf_at_solution.items():
+        if key[0] != "start":
+            continue
+        for rep in mdf_reports:
+            if 3 not in rep["values"]:
+                continue
+            for f, (iv, tol_i) in start["values"].items():
+                mv = rep["values"][3][f][0]
+                bd = [r for r in refs if r["k"] == 3][0]["ystar"].bounds(f)
+                tol = tol_i + (bd["mda"] if rep["mda"] else 4 * bd["round"] * ref.kappa * ref.n)
+                if not _err(mv, iv) <= tol:
+                    viol("idf-start-equals-mdf", start["fv"], f, f"{f}: IDF at its equilibrium start = {iv}, {rep['label']}{rep['fv'][1:]} at the same design values = {mv}, |diff| {_err(mv, iv):.3e} > {tol:.3e}", with_idf=[rep["fv"]])
+
     # IDF requires every coupling in the design space
     if case.get("check_required") and ref.couplings:
         for drop in ref.couplings:
@@ -754,6 +790,14 @@ def run_case(case, tally):
                 viol("idf-requires-couplings", fv, drop, f"design space without {drop}: {type(e).__name__} instead of ValueError: {str(e)[:200]}")
         tally.count("idf_missing_coupling_probes", len(ref.couplings))
     return obs
+
+
+def _start_distance(ref, ystar):
+    """Bound on ||y0 - y*||_2 whatever the start of the MDA: the design-space values (0.5) or discipline defaults."""
+    if not ref.m:
+        return 0.0
+    yv = ref.pack_y(ystar)
+    return max(float(np.linalg.norm(yv - 0.5)), float(np.linalg.norm(yv)) + MAX_DEFAULT * math.sqrt(ref.m))
 
 
 def _key(case):
@@ -776,7 +820,7 @@ def _check_idf(ref, fv, prob, names, funcs, consistency, refs, unbounded, viol, 
         x0 = {v: initial(v) for v in ref.design}
         ystar, _ = ref.solve(x0)
         cur = prob.design_space.get_current_value(as_dict=True)
-        dist = float(np.linalg.norm(ref.pack_y(ystar) - 0.5)) if ref.m else 0.0
+        dist = _start_distance(ref, ystar)
         for c in ref.couplings:
             bd = ref.bounds(c, ref.data(x0, ystar), dist)
             if not _err(cur[c], ystar[c]) <= bd["mda"]:
@@ -785,8 +829,32 @@ def _check_idf(ref, fv, prob, names, funcs, consistency, refs, unbounded, viol, 
         for v in ref.design:
             if not np.array_equal(cur[v], x0[v]):
                 viol("idf-start-at-equilibrium", fv, v, f"design variable {v} moved: {cur[v]}")
+        # ... there the consistency constraints vanish and objective / constraints are those of the consistent system
+        xcur = np.asarray(prob.design_space.get_current_value(), dtype=float)
+        data0 = ref.data(x0, ystar)
+        out0 = ref.outputs(data0)
+        at_start = {}
+        for f, func in funcs.items():
+            bd = ref.bounds(f, data0, dist)
+            val = np.atleast_1d(np.asarray(func.evaluate(xcur), dtype=float))
+            at_start[f] = (val, bd["mda"])
+            if not _err(val, out0[f]) <= bd["mda"]:
+                viol("idf-start-at-equilibrium", fv, f, f"{f} at the start = {val}, {f}(x0, y*(x0)) = {out0[f]}, |diff| {_err(val, out0[f]):.3e} > {bd['mda']:.3e}")
+                status = "bad"
+        for nm, (func, b) in consistency.items():
+            cs = sorted(b.couplings)
+            rng = np.concatenate([bounds(c, unbounded)[1] - bounds(c, unbounded)[0] for c in cs])
+            scale = np.where(np.isfinite(rng), rng, 1.0) if normalize else np.ones_like(rng)
+            # |F(x0, y) - y| <= (1 + L) |y - y*| <= 2 |y - y*|
+            lim = np.concatenate([np.full(size(c), 2.0 * ref.bounds(c, data0, dist)["mda"]) for c in cs]) / scale
+            val = np.atleast_1d(np.asarray(func.evaluate(xcur), dtype=float))
+            if val.shape != lim.shape or not np.all(np.abs(val) <= lim):
+                viol("idf-start-at-equilibrium", fv, cs[0], f"consistency constraint {nm} = {val} at the start (x0, couplings {[cur[c].tolist() for c in cs]}); y*(x0) = {[ystar[c].tolist() for c in cs]}")
+                status = "bad"
+        store[("start", tuple(map(str, fv)))] = {"fv": fv, "values": at_start}
     seq = []
-    for r in refs:
+    parallel = len(fv) > 3 and fv[3] > 1
+    for r in (refs[:1] if parallel else refs):  # thread / process variants: one design point (each execution starts workers)
         seq += [(r, "ystar"), (r, "yoff")]
     seq.append((refs[0], "ystar"))  # a repeated point (discipline caches, cached masks)
     for r, which in seq:
@@ -1061,7 +1129,18 @@ def main_mda_forms(system: str):
 MAIN_MDA_SYSTEMS_QUICK = [s for s in SYSTEMS if weakly_coupled_disciplines(s)] + ["2-strong"]
 
 
-def forms_for(system: str, level: str, mains: bool = False):
+PARALLEL_IDF_SYSTEMS_QUICK = ["2-strong", "2-weak-rev", "3-mixed", "3-upstream"]
+
+
+def parallel_idf_forms(processes: bool):
+    """IDF x start_at_equilibrium x n_processes in {1, 2} (threads; + one multiprocessing variant), minus the plain sequential IDF."""
+    out = [["IDF", True, True, 1, True], ["IDF", True, False, 2, True], ["IDF", True, True, 2, True]]
+    if processes:
+        out.append(["IDF", False, True, 2, False])
+    return out
+
+
+def forms_for(system: str, level: str, mains: bool = False, parallel: bool = False):
     """Formulation variants of one case.  level: "default" (gemseo's defaults) | "all" | "extra" (thorough additions)."""
     strong = "exec" not in SYSTEMS[system]
     if level == "default":
@@ -1070,8 +1149,8 @@ def forms_for(system: str, level: str, mains: bool = False):
         out = [["IDF", False], ["IDF", True]] + [["MDF", "MDAChain", m] for m in (INNER_MDAS if strong else INNER_MDAS[:1])]
     if not strong:
         out.append(["DOPT"])
-    if level == "extra":
-        out.append(["IDF", True, True])
+    if parallel or level == "extra":
+        out += parallel_idf_forms(processes=system == "2-strong")
     if mains or level == "extra":
         out += main_mda_forms(system)
     return out
@@ -1084,7 +1163,7 @@ def cases(thorough: bool):
               complete (IDF normalize x MDF inner MDA x DisciplinaryOpt) on the covering orders and reduced to gemseo's defaults
               (IDF normalized, MDF/Jacobi) on the other orders; the other harness variants on 3 orders, complete formulation product.
     thorough: every variant x every order (5 variables: all 120 for the base variants, covering set otherwise) x complete
-              formulation product, plus IDF(start_at_equilibrium) and MDF(main MDA other than MDAChain) on the covering orders.
+              formulation product, plus IDF(start_at_equilibrium x n_processes) and MDF(main MDA other than MDAChain) on the covering orders.
     both:     MDF with a main MDA other than MDAChain (``main_mda_forms``): quick = base variants x first 3 covering orders on every graph
               with a weakly coupled discipline and on 2-strong; the weak couplings then stay inputs of the MDA, so nothing but
               ``MDF._remove_couplings_from_ds`` removes them from the design space shared with IDF.
@@ -1110,7 +1189,8 @@ def cases(thorough: bool):
                         level = "all" if (not base or tuple(order) in (ckeys if len(names) <= 4 else {tuple(o) for o in covering[:3]})) else "default"
                     mains = not thorough and base and system in MAIN_MDA_SYSTEMS_QUICK and order in covering[:3]
                     yield {"system": system, "variant": variant, "obj": obj, "cons": cons, "order": order,
-                           "formulations": forms_for(system, level, mains),
+                           "formulations": [fv for fv in forms_for(system, level, mains, not thorough and base and system in PARALLEL_IDF_SYSTEMS_QUICK and order in covering[:3])
+                                            if not (fv[0] == "IDF" and len(fv) > 4 and not fv[4] and order != covering[0])],  # multiprocessing: declaration order only
                            "check_required": k == 0 and variant == "affine" and cons == ["g1"]}
 
 
@@ -1150,13 +1230,14 @@ def run(ctx):
         "x 3 design points x {consistent, inconsistent} couplings.  " + (
             "thorough: every order (5-variable systems: all 120 for the two base variants, the strength-3 sequence-covering set for the others) x complete "
             "formulation product (IDF normalize in {F,T}; MDF/MDAChain inner MDA in {Jacobi, Gauss-Seidel, Newton}; DisciplinaryOpt on weakly coupled systems), "
-            "plus IDF(start_at_equilibrium) and MDF(main MDA in {MDAJacobi, MDAGaussSeidel; MDANewtonRaphson, MDAGSNewton on fully cyclic graphs}) on the covering orders, plus SLSQP optima of MDF / IDF / DisciplinaryOpt on the convex members"
+            "plus IDF(start_at_equilibrium in {F,T} x n_processes in {1,2}) and MDF(main MDA in {MDAJacobi, MDAGaussSeidel; MDANewtonRaphson, MDAGSNewton on fully cyclic graphs}) on the covering orders, plus SLSQP optima of MDF / IDF / DisciplinaryOpt on the convex members"
             if ctx.thorough else
             "quick: base variants (affine, nonlinear) x all 24 orders of the 4-variable systems / the strength-3 sequence-covering orders of the 5-variable systems, "
             "with the complete formulation product (IDF normalize in {F,T}; MDF/MDAChain inner MDA in {Jacobi, Gauss-Seidel, Newton}; DisciplinaryOpt on weakly coupled "
             "systems) on the covering orders (5 variables: the first 3) and gemseo's defaults (IDF normalized, MDF/Jacobi, DisciplinaryOpt) on the other orders; the 4 other "
             "variants on 3 orders x complete formulation product; MDF with main MDA in {MDAJacobi, MDAGaussSeidel; + MDANewtonRaphson, MDAGSNewton on 2-strong} on the first 3 covering "
-            "orders of the base variants of every graph with a weakly coupled discipline and of 2-strong (design space shared with IDF, couplings included); 3-discipline systems: 9 single-constraint choices (+1 two-constraint choice on 4-variable systems)"
+            "orders of the base variants of every graph with a weakly coupled discipline and of 2-strong (design space shared with IDF, couplings included); "
+            "IDF start_at_equilibrium in {F,T} x n_processes in {1,2} (threads; + one multiprocessing variant on 2-strong) on the same orders of 2-strong, 2-weak-rev, 3-mixed, 3-upstream; 3-discipline systems: 9 single-constraint choices (+1 two-constraint choice on 4-variable systems)"
         ) + ".  One evaluation = one formulation object built and interrogated.  It is non-trivial when at least one of "
         "its functions reads design-vector components that are not a prefix of the design vector in order (input mask != identity)",
         "exhaustive": True,
